@@ -167,7 +167,7 @@ fn e2e_strategy(_t: Tier) -> BoxedStrategy<E2eCase> {
         1 => 9000u32..=65000,
         1 => 65500u32..=65527,
     ];
-    bx((plen, pdu_seed(), lab_addr_or_bcast(), ptype_user(), any::<u8>(), any::<bool>(), 13u16..=4097, 7u16..=4097, prop_oneof![2 => Just(0u8), 1 => Just(1u8), 1 => Just(2u8)]).prop_map(
+    bx((plen, pdu_seed(), lab_addr_or_bcast(), ptype_user(), any::<u8>(), any::<bool>(), 13u16..=4097, 7u16..=4097, prop_oneof![3 => Just(0u8), 1 => Just(1u8), 1 => Just(2u8), 1 => Just(3u8)]).prop_map(
         |(len, seed, lab, ptype, frag_id, prime, first_buf, cont_buf, ext)| E2eCase {
             ext,
             pdu: Pdu { len, seed },
@@ -183,6 +183,8 @@ fn e2e_strategy(_t: Tier) -> BoxedStrategy<E2eCase> {
 
 fn check_e2e(c: &E2eCase, st: &mut Stats) -> Result<(), String> {
     let pdu = c.pdu.bytes();
+    // kind 3: the protocol type is the id of the final mandatory extension closing the chain
+    let ptype: u16 = if c.ext == 3 { 0x0082 } else { c.ptype };
     let elog = Rc::new(RefCell::new(vec![]));
     let dlog = Rc::new(RefCell::new(vec![]));
     // the two roles are run twice: once with the real DefaultCrc on both sides (what is on
@@ -218,12 +220,13 @@ fn check_e2e(c: &E2eCase, st: &mut Stats) -> Result<(), String> {
     let exts: Vec<ExtSpec> = match c.ext {
         1 => vec![ExtSpec { id: 0x0301, data: vec![1, 2, 3, 4] }],
         2 => vec![ExtSpec { id: 0x0102, data: vec![] }, ExtSpec { id: 0x0003, data: vec![9, 8] }],
+        3 => vec![ExtSpec { id: 0x0301, data: vec![4, 3, 2, 1] }, ExtSpec { id: 0x0082, data: vec![] }],
         _ => vec![],
     };
     let ext_area: usize = if exts.is_empty() { 0 } else { exts.iter().map(|e| e.wire_len()).sum::<usize>() };
     let first_buf = c.first_buf as usize + ext_area;
     st.class_if(!exts.is_empty(), "with-extensions");
-    let pkts = match send_pdu(&mut enc, &pdu, c.frag_id, c.ptype, c.lab, &exts, first_buf, c.cont_buf as usize) {
+    let pkts = match send_pdu(&mut enc, &pdu, c.frag_id, ptype, c.lab, &exts, first_buf, c.cont_buf as usize) {
         Ok(p) => p,
         Err(e) => return st.violation("send-failed", format!("sender failed on in-domain input: {}", e)),
     };
@@ -246,13 +249,13 @@ fn check_e2e(c: &E2eCase, st: &mut Stats) -> Result<(), String> {
     st.class_if(substituted, "first-fragment-substituted");
     st.class_if(!substituted, "first-fragment-full-label");
     let tl = (2 + first.label.len() + pdu.len()) as u16;
-    let want = refcrc::gse_crc(tl, c.ptype, &first.label, &pdu);
+    let want = refcrc::gse_crc(tl, ptype, &first.label, &pdu);
     st.nontrivial(hash_of(c));
     st.sample(|| json!({"case": format!("{:?}", c), "packets": pkts.len(), "label_written": first.label, "crc": format!("{:#010x}", want)}));
     if lastp.crc != Some(want) {
         return st.violation(
             "trailer-mismatch",
-            format!("end-packet trailer {:#010x?} != CRC-32/MPEG-2 {:#010x} over tl={} pt={:#06x} label={:02x?} pdu[{}]", lastp.crc, want, tl, c.ptype, first.label, pdu.len()),
+            format!("end-packet trailer {:#010x?} != CRC-32/MPEG-2 {:#010x} over tl={} pt={:#06x} label={:02x?} pdu[{}]", lastp.crc, want, tl, ptype, first.label, pdu.len()),
         );
     }
     // the receiver accepts it (it recomputes the same value)
@@ -277,7 +280,7 @@ fn check_e2e(c: &E2eCase, st: &mut Stats) -> Result<(), String> {
     let rp = match {
         let mut out = vec![];
         let mut buf = vec![0u8; first_buf];
-        let md = EncapMetadata::new(c.ptype, c.lab.to_label());
+        let md = EncapMetadata::new(ptype, c.lab.to_label());
         let built: Vec<_> = exts.iter().filter_map(|e| e.build().ok()).collect();
         match guard(|| if built.is_empty() { renc.encap(&pdu, c.frag_id, md, &mut buf) } else { renc.encap_ext(&pdu, c.frag_id, md, &mut buf, built) }) {
             Ok(Ok(EncapStatus::FragmentedPkt(n, mut ctx))) => {
@@ -308,10 +311,10 @@ fn check_e2e(c: &E2eCase, st: &mut Stats) -> Result<(), String> {
     };
     {
         let l = elog.borrow();
-        let hit = l.iter().any(|(p, pt, t, lb)| p == &pdu && *pt == c.ptype && *t == tl && lb == &first.label);
+        let hit = l.iter().any(|(p, pt, t, lb)| p == &pdu && *pt == ptype && *t == tl && lb == &first.label);
         if !hit {
             let seen: Vec<_> = l.iter().map(|(p, pt, t, lb)| (p.len(), *pt, *t, lb.clone())).collect();
-            return st.violation("encap-crc-args", format!("encapsulator's calculator never saw (whole pdu, {:#06x}, {}, {:02x?}); saw {:?}", c.ptype, tl, first.label, seen));
+            return st.violation("encap-crc-args", format!("encapsulator's calculator never saw (whole pdu, {:#06x}, {}, {:02x?}); saw {:?}", ptype, tl, first.label, seen));
         }
     }
     dlog.borrow_mut().clear();
@@ -320,10 +323,10 @@ fn check_e2e(c: &E2eCase, st: &mut Stats) -> Result<(), String> {
     }
     {
         let l = dlog.borrow();
-        let hit = l.iter().any(|(p, pt, t, lb)| p == &pdu && *pt == c.ptype && *t == tl && lb == &first.label);
+        let hit = l.iter().any(|(p, pt, t, lb)| p == &pdu && *pt == ptype && *t == tl && lb == &first.label);
         if !hit {
             let seen: Vec<_> = l.iter().map(|(p, pt, t, lb)| (p.len(), *pt, *t, lb.clone())).collect();
-            return st.violation("decap-crc-args", format!("decapsulator's calculator never saw (reassembled pdu, {:#06x}, {}, {:02x?}); saw {:?}", c.ptype, tl, first.label, seen));
+            return st.violation("decap-crc-args", format!("decapsulator's calculator never saw (reassembled pdu, {:#06x}, {}, {:02x?}); saw {:?}", ptype, tl, first.label, seen));
         }
     }
     Ok(())
